@@ -13,6 +13,7 @@ import (
 	"strconv"
 	"strings"
 	"sync"
+	"sync/atomic"
 	"syscall"
 	"time"
 
@@ -80,6 +81,9 @@ type refRun struct {
 	digest map[uint32]string            // whole-dump digest per height
 	tables map[uint32]map[string]string // per table
 	dbAt   map[uint32]string            // db base path of the copy taken after height h
+	// the uninterrupted run could not apply this block (0 = ran to the tip); experiments are limited to the blocks below it
+	stalledAt uint32
+	stallWhy  string
 }
 
 func reference(c *gen.Chain, r *run.Runner, copyAt map[uint32]bool, dir string, timeout time.Duration) (*refRun, error) {
@@ -90,6 +94,42 @@ func reference(c *gen.Chain, r *run.Runner, copyAt map[uint32]bool, dir string, 
 	for h := config.PegnetActivation + 1; h <= c.Scn.Tip; h++ {
 		res := r.Advance(h, timeout)
 		if !res.OK {
+			// the fault-free run cannot apply block h. If the database nevertheless differs from what it held after
+			// block h-1, part of block h has been written outside the block's transaction: report that, it is a verdict
+			if prev, ok := ref.digest[h-1]; ok {
+				if d, err := r.Dump(); err == nil && proj.Digest(d) != prev {
+					var diff []string
+					td := proj.TableDigests(d)
+					for t, v := range ref.tables[h-1] {
+						if td[t] != v {
+							diff = append(diff, t)
+						}
+					}
+					sort.Strings(diff)
+					return nil, &refPartial{h: h, synced: r.DBSynced(), diff: diff, why: fmt.Sprintf("%+v", res)}
+				}
+			}
+			if h-1 > config.PegnetActivation+1 {
+				// evaluate what can be evaluated: the blocks below the one that cannot be applied
+				ref.stalledAt = h
+				ref.stallWhy = fmt.Sprintf("%+v", res)
+				// let the daemon find nothing to do before stopping it: cancelling it in the middle of a block makes
+				// it exit the whole process (Rollback after a cancelled BeginTx returns ErrTxDone -> Fatal)
+				r.Srv.SetTip(h - 1)
+				seq0 := r.Srv.Seq()
+				for deadline := time.Now().Add(60 * time.Second); time.Now().Before(deadline); time.Sleep(20 * time.Millisecond) {
+					polls := 0
+					for _, q := range r.Srv.Requests() {
+						if q.Seq > seq0 && q.Method == "heights" {
+							polls++
+						}
+					}
+					if polls >= 3 {
+						break
+					}
+				}
+				return ref, r.StopNode()
+			}
 			return nil, fmt.Errorf("reference run failed at %d: %+v", h, res)
 		}
 		d, err := r.Dump()
@@ -147,6 +187,18 @@ func inspect(dbBase string) (synced int64, digest string, syncverOK bool, err er
 		syncverOK = false
 	}
 	return synced, proj.Digest(dump), syncverOK, nil
+}
+
+// refPartial: the uninterrupted run stalled at block h with effects of that block already in the database.
+type refPartial struct {
+	h      uint32
+	synced int64
+	diff   []string
+	why    string
+}
+
+func (e *refPartial) Error() string {
+	return fmt.Sprintf("reference run stalled at %d with part of the block committed (tables %v, synced %d): %s", e.h, e.diff, e.synced, e.why)
 }
 
 // cmdCrash enumerates crash points (C02) or single statement / request faults (C10).
@@ -210,10 +262,37 @@ func cmdCrash(args []string) {
 	}
 	ref, err := reference(c, r, copyAt, *work, 20*time.Second)
 	if err != nil {
+		if rp, ok := err.(*refPartial); ok {
+			f, ferr := os.Create(*out)
+			if ferr != nil {
+				die(70, "%v", ferr)
+			}
+			for _, v := range []interface{}{
+				map[string]interface{}{"ev": "Start", "mode": *mode, "tip": s.Tip, "start": config.PegnetActivation, "name": s.Name, "wal": *wal},
+				map[string]interface{}{"ev": "RefPartial", "h": rp.h, "synced": rp.synced, "diffTables": rp.diff, "why": rp.why},
+				map[string]interface{}{"ev": "End", "experiments": 0}} {
+				b, _ := json.Marshal(v)
+				f.Write(append(b, '\n'))
+			}
+			f.Close()
+			r.StopNode()
+			r.Srv.Stop()
+			return
+		}
 		die(70, "reference: %v", err)
 	}
 	if copyAt[config.PegnetActivation] {
 		ref.dbAt[config.PegnetActivation] = filepath.Join(*work, "ref-fresh", "pegnet")
+	}
+	if ref.stalledAt > 0 {
+		s.Tip = ref.stalledAt - 1
+		var c2 []uint32
+		for _, h := range content {
+			if h < ref.stalledAt {
+				c2 = append(c2, h)
+			}
+		}
+		content = c2
 	}
 	r.Srv.SetTip(s.Tip)
 	// per-client request counters and one-shot request faults (mode reqfault)
@@ -247,6 +326,9 @@ func cmdCrash(args []string) {
 		omu.Unlock()
 	}
 	emit(map[string]interface{}{"ev": "Start", "mode": *mode, "tip": s.Tip, "start": config.PegnetActivation, "name": s.Name, "wal": *wal})
+	if ref.stalledAt > 0 {
+		emit(map[string]interface{}{"ev": "RefStalled", "h": ref.stalledAt, "why": ref.stallWhy})
+	}
 
 	common := func(db string, until uint32, client string) []string {
 		a := []string{"-url", fmt.Sprintf("%s?tip=%d&client=%s", r.Srv.URL, until, client), "-db", db, "-scenario", *scn,
@@ -299,7 +381,14 @@ func cmdCrash(args []string) {
 	}
 	sem := make(chan struct{}, *par)
 	var wg sync.WaitGroup
+	r.Srv.SetKeepLog(false) // the request log is only needed by the reference run's wedge detector
+	var failed int32         // experiments that ended badly so far: after 24 the verdict is clear, the rest is skipped
+	skipped := 0
 	for i, e := range exps {
+		if atomic.LoadInt32(&failed) >= 24 {
+			skipped++
+			continue
+		}
 		wg.Add(1)
 		sem <- struct{}{}
 		go func(i int, e exp) {
@@ -441,11 +530,16 @@ func cmdCrash(args []string) {
 					res["diffTables"] = diff
 				}
 			}
+			if eq, _ := res["equal"].(bool); !eq {
+				atomic.AddInt32(&failed, 1)
+			} else if ok, has := res["contOK"].(bool); has && !ok {
+				atomic.AddInt32(&failed, 1)
+			}
 			emit(res)
 		}(i, e)
 	}
 	wg.Wait()
-	emit(map[string]interface{}{"ev": "End", "experiments": len(exps)})
+	emit(map[string]interface{}{"ev": "End", "experiments": len(exps) - skipped, "skippedAfterFailures": skipped})
 	r.Srv.Stop()
 }
 
